@@ -23,7 +23,7 @@ use sozu_command_lib::{
     channel::Channel,
     config::{ConfigBuilder, FileConfig},
     proto::command::{
-        request::RequestType, ActivateListener, DeactivateListener, RemoveListener, AddBackend, Cluster, ListenerType, LoadBalancingParams,
+        request::RequestType, ActivateListener, DeactivateListener, RemoveBackend, RemoveListener, AddBackend, Cluster, ListenerType, LoadBalancingParams,
         Request, RequestUdpFrontend, ResponseStatus, ServerConfig, SoftStop, UdpAffinityKey, UdpClusterConfig,
         UdpListenerConfig, WorkerRequest, WorkerResponse,
     },
@@ -420,6 +420,33 @@ fn run(c: &Case, out: &mut Out) {
                     live.clear();
                 }
                 out.obs(&[]);
+            }
+            "addbackend" => {
+                // a backend joins the cluster while the listener is serving
+                let i = backends.len();
+                let b = spawn_backend(i, stop.clone(), v6);
+                let ok = worker.as_mut().unwrap().req(RequestType::AddBackend(AddBackend {
+                    cluster_id: CLUSTER.into(),
+                    backend_id: format!("b{i}"),
+                    address: b.addr.into(),
+                    load_balancing_parameters: Some(LoadBalancingParams::default()),
+                    sticky_id: None,
+                    backup: None,
+                }));
+                backends.push(b);
+                if let Some(base) = fd_base.as_mut() {
+                    *base += 1;     // the new mock backend's own socket
+                }
+                out.obs(&[ts("addbackend"), tbool(ok)]);
+            }
+            "rmbackend" => {
+                let i = a[0].n() as usize;
+                let ok = worker.as_mut().unwrap().req(RequestType::RemoveBackend(RemoveBackend {
+                    cluster_id: CLUSTER.into(),
+                    backend_id: format!("b{i}"),
+                    address: backends[i].addr.into(),
+                }));
+                out.obs(&[ts("rmbackend"), tbool(ok)]);
             }
             "remove" => {
                 // RemoveListener with live flows: every flow is released, nothing is forwarded any more,
